@@ -92,7 +92,7 @@ Qed.
 
 (* ------------------------------------------------------------------ the reads *)
 
-(* point read at the latest revision; the key, if present, has a non-empty value (kwf) *)
+(* point read at the latest revision, whatever the value (also an empty one) *)
 Lemma sim_get sb se k lim : R sb se -> bounded sb -> k <> [] ->
   proj_range (shim_range sb (mkRange k [] lim 0 false false)) = proj_range (etcd_range se (mkRange k [] lim 0 false false)).
 Proof.
@@ -100,11 +100,10 @@ Proof.
   unfold etcd_range; cbn [r_key r_rev]. destruct k as [|k0 k']; [contradiction|]. set (k := k0 :: k') in *.
   unfold store_at. cbn [Z.leb Z.compare]. rewrite (do_range_get _ k lim (e_rev se) Hs).
   unfold shim_range; cbn [r_end r_key r_rev]. change (u64_of_Z 0) with 0%N. unfold b_get_resp.
-  destruct (key_cases sb se k HR) as [Hi Hvs Hf | r rest Hi Hvs Hr Hf | r v0 rest y Hi Hvs Hv0 Hne0 Hr Hf Hyk Hyv Hym].
+  destruct (key_cases sb se k HR) as [Hi Hvs Hf | r rest Hi Hvs Hr Hf | r v0 rest y Hi Hvs Hv0 Hr Hf Hyk Hyv Hym].
   - rewrite (b_get_absent sb k Hvs), Hf. reflexivity.
   - rewrite (b_get_deleted sb k r rest Hb ltac:(lia) Hvs), Hf. reflexivity.
   - rewrite (b_get_live sb k r v0 rest Hb ltac:(lia) Hv0 Hvs), Hf.
-    destruct v0 as [|c v0]; [contradiction|].
     unfold proj_range; cbn [map]. rewrite (pk_shim_kv sb k _ r Hb ltac:(lia)). unfold pk. rewrite Hyk, Hyv, Hym. reflexivity.
 Qed.
 
